@@ -152,6 +152,10 @@ func tokenToValue(t json.Token) (Canonicalable, error) {
 		if f, err := n.Float64(); err == nil {
 			return Float(f), nil
 		}
+		// neither a 64 bit integer nor a 64 bit float can hold this number,
+		// and turning it into something else (it used to become null) would
+		// give different documents the same canonical form.
+		return nil, fmt.Errorf("number out of range: %s", n.String())
 	}
 	if b, ok := t.(bool); ok {
 		return Bool(b), nil
